@@ -99,3 +99,84 @@ def run(prop, tier, seed, verdict, tree, own_evidence=True):
                        "loader callback trace, resulting activity, canary bytes (four patterns, around the saver's and the loader's buffer), bits beyond capacity, canonical bytes; plus round trips through an exact-size heap buffer").strip()
         cov["wide_all_pairs_for"] = "every size" if tier == "thorough" else "N <= 33 (larger sizes: every saver activity x 16 loader states)"
     return stats
+
+
+# ---------------------------------------------------------------------------
+# E3b wideplan: the plan clauses on machines of every size (C08, C09, C10)
+
+QUICK_PLAN = [(4, 0, 0), (8, 1, 2), (9, 0, 0), (17, 1, 20), (33, 0, 40), (64, 1, 0), (65, 0, 3), (127, 1, 0), (128, 0, 0),
+              (129, 1, 254), (255, 0, 0), (255, 1, 1)]
+
+
+def plan_sizes(tier, seed):
+    if tier != "thorough":
+        return sorted(QUICK_PLAN, key=lambda t: -t[0])
+    import random
+    rng = random.Random(seed)
+    out = set(QUICK_PLAN)
+    for n in range(4, 256):
+        out.add((n, n % 3 == 0 and 1 or 0, 0))
+        out.add((n, rng.randrange(2), rng.choice([1, 2, 3, max(1, n - 1), min(254, n + 1), 254, rng.randrange(1, 255)])))
+    return sorted(out, key=lambda t: -t[0])
+
+
+def run_plans(prop, tier, seed, verdict, tree):
+    stats = {}
+    sigs = set()
+    samples = []
+    sizes = plan_sizes(tier, seed)
+    keep = tier == "quick"
+    for variant in tree.header_variants():
+        def one(t):
+            n, h, cap = t
+            b = C.build(tree, "wideplan.cpp", ["-O0", "-DWIDE_N=%d" % n, "-DWIDE_HEAD=%d" % h, "-DWIDE_CAP=%d" % cap], variant=variant,
+                        name="wideplan-%d-%d-%d" % (n, h, cap))
+            if not b.ok:
+                return t, b, None, None
+            sig = os.path.join(verdict.outdir, "wpsig-%s-%d-%d-%d.bin" % (variant[0], n, h, cap))
+            r = C.run_monitor([b.path, "--prop", prop, "--tier", tier, "--seed", str(seed), "--sigfile", sig], timeout=1800)
+            if not keep:
+                for suffix in ("", ".ok", ".log"):
+                    try:
+                        os.unlink(b.path + suffix)
+                    except OSError:
+                        pass
+            return t, b, r, sig
+
+        for (n, h, cap), b, r, sig in C.parallel(one, sizes):
+            if not b.ok:
+                first_err = next((l for l in b.log.splitlines() if "error" in l), b.log[-400:])
+                verdict.violation("does-not-build|plans|N=%d|capacity=%d" % (n, cap),
+                                  "a machine with %d states and plans (capacity %s) is rejected by the compiler: %s" % (n, cap or "default", first_err[:500]))
+                continue
+            if r.timed_out:
+                verdict.harness_error("wideplan N=%d timed out (inconclusive)" % n)
+                continue
+            if r.rc != 0:
+                verdict.violation("monitor-process-died|wideplan|N=%d|rc=%s" % (n, r.rc), "wideplan N=%d head=%d cap=%d ended rc=%s: %s" % (n, h, cap, r.rc, r.stderr_tail[-600:]))
+            for v in r.viols:
+                verdict.violation(v["key"], v.get("msg", ""), prop=v.get("prop"))
+            C.merge_stats(stats, r.stats)
+            try:
+                with open(sig, "rb") as fh:
+                    data = fh.read()
+                sigs.update(struct.unpack("<%dQ" % (len(data) // 8), data[:len(data) // 8 * 8]))
+                os.unlink(sig)
+            except OSError:
+                pass
+            if len(samples) < 2:
+                samples.extend(r.samples[:1])
+    cov = verdict.coverage
+    n_eval = int(stats.get("appends", 0)) if prop == "C10" else int(stats.get("origins_checked", 0))
+    cov["evaluations"] = int(cov.get("evaluations", 0)) + n_eval
+    cov["distinct_nontrivial"] = int(cov.get("distinct_nontrivial", 0)) + len(sigs)
+    cov["samples"] = (cov.get("samples") or []) + samples
+    cov["wideplan_sizes"] = sorted(stats.get("sizes", {}).keys(), key=lambda s: int("".join(ch for ch in s.split("c")[0] if ch.isdigit())))
+    for k, v in stats.items():
+        if isinstance(v, (int, float)):
+            cov["wideplan_" + k] = v
+    cov["rule"] = (cov.get("rule", "") + " wideplan: machines of 4..255 states with plans (payload tasks, default and explicit capacities below/above the state "
+                   "count); a case = one (N, root kind, capacity, origin state k): fill-to-capacity/iterator-removal/refill passes and, with every state k as the "
+                   "active origin, the no-report / inactive-report / success (fire with payload and origin, once, in order) / failure (planFailed, plan "
+                   "emptied, no fire) cycles; compared: callbacks with their transitions, active state, previousTransition, plan contents").strip()
+    return stats
